@@ -18,6 +18,10 @@ from ..flow import Flow
 # False: the model of globals.rs as it is.  Set the default to "1" once the `through_pointer`
 # repair (.cache/prompts/C14-fix.diff) is committed in /repo (C14_fixed_full_sound is proved for it).
 MODEL_FIXED = os.environ.get("VERIF_C14_MODEL_FIXED", "1") == "1"
+# "1": /repo 1af504c (through_pointer, outermost pointer level) — the code as it is.
+# "2": every auto-dereferenced level checked (.cache/prompts/C14-2-fix.diff); make it the default once
+#      that repair is committed (C14_fix2_full_sound is proved for it) and close C14-6a/b/c.
+MODEL_VARIANT = os.environ.get("VERIF_C14_MODEL_VARIANT", "1")
 
 I = ("I",)
 S = ("S",)
@@ -50,7 +54,14 @@ def ty_text(t):
 
 
 def pk(t):
-    return ("m" if t[1] else "i") if t[0] == "P" else "n"
+    """pointer kinds of t, outermost level first ('n' = not a pointer)"""
+    if t[0] != "P":
+        return "n"
+    k = ""
+    while t[0] == "P":
+        k += "m" if t[1] else "i"
+        t = t[2]
+    return k
 
 
 INT = lambda v: ("int", v)
@@ -85,7 +96,11 @@ defcell("ca", 7, False, "ca : [2]i32 : .[50, 51];", ("arr", INT(50)), "T:n")
 defcell("ma", 8, True, "ma : [2]i32 = .[60, 61];", ("arr", INT(60)), "T:n")
 defcell("qi", 9, True, "qi := ^ci;", ("ptr", ("ci", INT(5))), "R:i 0 " + "L:n 1 0 1 O:n 1", "i")
 defcell("qm", 10, True, "qm := ^mut mi;", ("ptr", ("mi", INT(6))), "R:m 1 " + "L:n 2 1 1 O:n 2", "m")
-PRELUDE = " ".join(CELLS[c][2] for c in ["ci", "mi", "cj", "mj", "cs", "ms", "ca", "ma", "qi", "qm"])
+defcell("qca", 12, True, "qca := ^ca;", ("ptr", ("ca", ("arr", INT(50)))), "R:i 0 " + "L:n 7 0 1 T:n", "i")
+defcell("qma", 13, True, "qma := ^mut ma;", ("ptr", ("ma", ("arr", INT(60)))), "R:m 1 " + "L:n 8 1 1 T:n", "m")
+defcell("qcs", 14, True, "qcs := ^cs;", ("ptr", ("cs", S_SHAPE(20, 21))), "R:i 0 " + "L:n 5 0 1 T:n", "i")
+defcell("qms", 15, True, "qms := ^mut ms;", ("ptr", ("ms", S_SHAPE(40, 41))), "R:m 1 " + "L:n 6 1 1 T:n", "m")
+PRELUDE = " ".join(CELLS[c][2] for c in ["ci", "mi", "cj", "mj", "cs", "ms", "ca", "ma", "qi", "qm", "qca", "qma", "qcs", "qms"])
 HEAD = "S :: struct { v: i32, a: [2]i32, pm: ^mut i32, pi: ^i32 };\ngi :: 5;\n"
 # cells printed after the statement: (expression, initial value, immutable data?)
 WATCH = [("ci", 5, True), ("mi", 6, False), ("cj", 31, True), ("mj", 30, False), ("cs.v", 20, True),
@@ -95,7 +110,8 @@ WATCH = [("ci", 5, True), ("mi", 6, False), ("cj", 31, True), ("mj", 30, False),
 
 def ref_to(cell, m):
     """value `^cell` / `^mut cell`"""
-    return ("^mut " if m else "^") + cell, "R:%s %d %s" % ("m" if m else "i", 1 if m else 0, cell_path(cell)), \
+    inner = CELLS_PK[cell] if CELLS_PK[cell] != "n" else ""
+    return ("^mut " if m else "^") + cell, "R:%s %d %s" % (("m" if m else "i") + inner, 1 if m else 0, cell_path(cell)), \
         ("ptr", (cell, CELLS[cell][3]))
 
 
@@ -128,12 +144,19 @@ def value(t):
             return ref_to("ma" if m else "ca", m)
         if e[0] == "P" and e[2] == I:
             return ref_to("qm" if e[1] else "qi", m)
+        if e[0] == "P" and e[2] == A(I):
+            return ref_to("qma" if e[1] else "qca", m)
+        if e[0] == "P" and e[2] == S:
+            return ref_to("qms" if e[1] else "qcs", m)
     return None
 
 
 ROOT_TYPES = [I, S, A(I), P(False, I), P(True, I), P(False, S), P(True, S), A(P(False, I)), A(P(True, I)),
               P(False, A(I)), P(True, A(I)), P(True, P(False, I)), P(False, P(True, I)), P(True, P(True, I)),
-              O(P(False, I)), O(P(True, I))]
+              O(P(False, I)), O(P(True, I)),
+              # pointers to pointers to arrays / structs: `.f` and `[i]` auto-dereference both levels
+              P(True, P(False, A(I))), P(True, P(True, A(I))), P(False, P(True, A(I))),
+              P(True, P(False, S)), P(True, P(True, S)), P(False, P(True, S))]
 
 
 class Case:
@@ -193,10 +216,18 @@ def steps(text, t, path, place, last):
         e = t[2]
         pointee = shape[1]
         res.append(("deref", text + "^", e, "D:%s %s" % (pk(e), path), pointee))
-        if e in (S, G):
-            fields_of(e, pointee, True)
-        if e[0] == "A":
-            res.append(("index-auto", text + "[0]", e[1], "X:%s %s" % (pk(e[1]), path), (pointee[0] + "[0]", pointee[1][1])))
+        # `.f` / `[i]` auto-dereference every pointer level
+        ult, ult_place, levels = e, pointee, 1
+        while ult[0] == "P":
+            ult, ult_place, levels = ult[2], ult_place[1][1], levels + 1
+        tag = "-auto" if levels == 1 else "-auto%d" % levels
+        if ult in (S, G):
+            for f, (ft, fn) in (S_FIELDS if ult == S else G_FIELDS).items():
+                res.append(("field" + tag, text + "." + f, ft, "F:%s %s %d" % (pk(ft), path, fn),
+                            (ult_place[0] + "." + f, ult_place[1][1][f])))
+        if ult[0] == "A":
+            res.append(("index" + tag, text + "[0]", ult[1], "X:%s %s" % (pk(ult[1]), path),
+                        (ult_place[0] + "[0]", ult_place[1][1])))
     if k == "O":
         res.append(("unwrap", "#unwrap(" + text + ")", t[1], "U:%s %s" % (pk(t[1]), path),
                     ("#unwrap(" + canon + ")", shape[1])))
@@ -259,7 +290,7 @@ def arm_class(c):
     def parse():
         t = toks[pos[0]]
         pos[0] += 1
-        ctor, k = t[0], t[2]
+        ctor, k = t[0], t[2:]
         node = {"c": ctor, "k": k, "kids": []}
         if ctor == "L":
             pos[0] += 2
@@ -280,8 +311,10 @@ def arm_class(c):
         return node
 
     def walk(n, d):
-        ctor, k = n["c"], n["k"]
+        ctor, k = n["c"], n["k"][0]
         kid = n["kids"][0] if n["kids"] else None
+        if ctor in "XF" and not d and kid["k"][0] == "m" and "i" in kid["k"][1:]:
+            return "multilevel-auto-deref"
         if ctor == "D":
             return "second-deref" if d else walk(kid, True)
         if ctor == "X":
@@ -289,7 +322,7 @@ def arm_class(c):
         if ctor == "U":
             return "unwrap-under-deref" if d else walk(kid, False)
         if ctor in "PB":
-            if d and k != kid["k"]:
+            if d and k != kid["k"][0]:
                 return "paren-kind"
             return walk(kid, d)
         if ctor == "L":
@@ -297,7 +330,7 @@ def arm_class(c):
                 return None
             if kid is None:
                 return "local-no-init"
-            if k != kid["k"]:
+            if k != kid["k"][0]:
                 return "local-annotation-changes-pointer-kind"
             return walk(kid, True)
         if ctor == "F":
@@ -349,15 +382,19 @@ def run(tier, seed):
         else:
             for c, s, i, m in zip(cases, srcs, impl, model):
                 mt = m.split()
-                if len(mt) != 8:
+                if len(mt) != 11:
                     fl.broken.append({"what": "model driver failed", "path": c.path, "out": m})
                     continue
-                m_assign, m_ref, place, suspect, typed, mut, x_assign, x_ref = mt
-                if MODEL_FIXED:
+                m_assign, m_ref, place, suspect, typed, mut, x_assign, x_ref, y_assign, y_ref, multi = mt
+                if MODEL_VARIANT == "2":
+                    m_assign, m_ref = y_assign, y_ref
+                elif MODEL_FIXED:
                     m_assign, m_ref = x_assign, x_ref
-                # theorem instances on the extracted code: the repaired variant is sound everywhere
-                if (x_assign == "1" or x_ref == "1") and place == "Immut":
-                    fl.broken.append({"what": "C14_fixed_full_sound instance fails on extracted code", "path": c.path})
+                # theorem instances on the extracted code
+                if (y_assign == "1" or y_ref == "1") and place == "Immut":
+                    fl.broken.append({"what": "C14_fix2_full_sound instance fails on extracted code", "path": c.path})
+                if multi == "0" and (x_assign == "1" or x_ref == "1") and place == "Immut":
+                    fl.broken.append({"what": "C14_assign_sound_except_multilevel instance fails on extracted code", "path": c.path})
                 kinds = [t.split(":", 1)[1].split("@")[0] for t in i.split() if ":" in t and not t.startswith("PANIC")]
                 errs = [k for k in kinds if not k.startswith("w-")]
                 other = [k for k in errs if k not in ("CannotMutate", "MutableRefToImmutableData")]
@@ -476,15 +513,15 @@ def run(tier, seed):
             v.coverage["evaluations"] += ran
         v.coverage["rule"] = (
             "stream 1 (exhaustive): every chain root x steps (<= 3) with roots {`::` local, `:=` local, parameter, local "
-            "initialised by a call, local whose annotation weakens ^mut to ^, global} over 16 root types (i32, struct, arrays, "
-            "^/^mut pointers to i32/struct/array/pointer, arrays of pointers, optionals of pointers) and steps {field, index, "
-            "deref, auto-deref field/index, paren, #unwrap}, x {plain, compound, ^mut, ^}; non-trivial = at least one step. "
+            "initialised by a call, local whose annotation weakens ^mut to ^, global} over 22 root types (i32, struct, arrays, "
+            "^/^mut pointers to i32/struct/array/pointer, pointers to pointers to arrays/structs, arrays of pointers, optionals "
+            "of pointers) and steps {field, index, deref, auto-deref field/index through one or two pointer levels, paren, #unwrap}, x {plain, compound, ^mut, ^}; non-trivial = at least one step. "
             "stream 2: accepted assignments run with capy; all `::` cells, globals and mutable cells are printed after the "
             "statement.")
     v.assumptions = [
         "typing oracle pk = pointer kind of the static type the generator assigned to each sub-expression (checked "
         "indirectly: a program that is not otherwise well-typed is reported as a broken stream)",
-        "MODEL_FIXED=%s (model variant compared with the code)" % MODEL_FIXED,
+        "MODEL_FIXED=%s MODEL_VARIANT=%s (model variant compared with the code)" % (MODEL_FIXED, MODEL_VARIANT),
         "get_mutability arms for Expr::Block tail, Expr::Cast and Ty::File members are modelled and proved about but not generated",
         "the theorems quantify over ALL typing oracles; `typed` (full statement) only demands pointer-typed deref operands "
         "and consistent types for paren/block/^ nodes",
